@@ -22,6 +22,7 @@ CONSTANTS
   WithMin      \* TRUE: disjunction min 2 / should min 1 variants are generated
 
 \* field tuples for the configuration files (cfg syntax has no tuples)
+FS4 == <<"t", "x", "u", "z">>
 FS5 == <<"t", "x", "y", "u", "z">>
 FS6 == <<"t", "x", "y", "u", "v", "z">>
 FS7 == <<"t", "x", "y", "u", "v", "z", "w">>
